@@ -4,28 +4,37 @@ ID = "C20"
 
 PROP = {'lean_props': ['Comrak.Props.C20'],
  'lean_audit': ['Comrak.Audit.C20'],
- 'required_theorems': ['split_sound',
+ 'required_theorems': ['parseLines_eq_lines',
+                       'split_sound',
+                       'split_complete',
+                       'split_recognised_iff',
+                       'split_none_first_line',
+                       'split_none_no_closing_line',
                        'split_none_not_at_start',
                        'split_none_open_not_alone',
-                       'split_none_unterminated',
-                       'split_none_close_not_alone',
-                       'split_complete_partial',
-                       'split_complete_eof_partial',
+                       'split_lines_invariant',
+                       'front_matter_any_line_endings',
                        'lines_shift',
+                       'front_matter_line_count',
                        'unrecognised_is_ordinary',
                        'html_front_matter_absent',
                        'html_front_matter_absent_doc',
                        'xml_front_matter_is_empty_element',
                        'xml_front_matter_one_element_doc',
                        'cm_front_matter_verbatim'],
- 'strength': 'full for the splitter on the soundness side (what is taken is always a delimiter-enclosed leading block; look-alikes are never taken) '
-             'and for the line shift; completeness is proved on uniformly terminated texts whose body lines do not start with the delimiter and '
-             'refuted outside (three counterexample theorems = three known findings); the formatters\' treatment of the FrontMatter node is '
-             'proved on the three formatter models (HTML: no token, and Document[FrontMatter, rest] = Document[rest] token for token; XML: one '
-             'self-closing <frontmatter /> element and nothing else changes; CommonMark: the output starts with the payload byte for byte, '
-             'for every width); that the rest *parses* as on its own is a whole-parser fact covered by the search on the real code',
- 'trusted_base': ['byte-level reading of &str offsets (exact on valid UTF-8: every slice offset follows a complete match of a valid UTF-8 pattern)',
-                  'the independent line-based reading of the statement used by the search oracle (ref_split in harness/src/c20.rs)'],
+ 'strength': 'full for the splitter: a complete characterisation in terms of the LF/CRLF/CR lines of the text, for every text and every '
+             'non-empty delimiter (recognised exactly when the first line is the delimiter and a later line is; what is taken is cut at a '
+             'line boundary and consists of the delimiter, lines that are not the delimiter, the delimiter, plus one blank line exactly when '
+             'one follows; empty bodies, mixed line endings, CR-only endings and a closing delimiter at the end of the input included), '
+             'independence of the line-ending convention, and the line shift (= number of lines of the front matter); the four former '
+             'incompleteness findings are repaired in /repo (d92265f) and kept as _repaired theorems; the formatters\' treatment of the '
+             'FrontMatter node is proved on the three formatter models (HTML: no token, and Document[FrontMatter, rest] = Document[rest] token '
+             'for token; XML: one self-closing <frontmatter /> element and nothing else changes; CommonMark: the output starts with the payload '
+             'byte for byte, for every width); that the rest *parses* as on its own is a whole-parser fact covered by the search on the real code',
+ 'trusted_base': ['byte-level reading of &str offsets (exact on valid UTF-8: every slice offset is the start or end of the text, next to an '
+                  'ASCII line-end byte, or follows a complete match of the delimiter)',
+                  'the independent line-based reading of the statement used by the search oracle (ref_lines / ref_split in harness/src/c20.rs; '
+                  'ref_lines is compared with the Lean `lines` in the correspondence stage)'],
  'assumptions': ['input and delimiter are valid UTF-8; the delimiter is non-empty and contains no line break (the property\'s quantifier)',
                  'a rest that itself starts with U+FEFF is excluded from "renders as on its own": a byte-order mark exists only at the very start '
                  'of a text (Lean: bom_rest_counterexample)',
@@ -33,14 +42,21 @@ PROP = {'lean_props': ['Comrak.Props.C20'],
                  'front matter option on a different text)',
                  'CommonMark of the rest is compared modulo blank lines between the verbatim block and the next block']}
 
-TEXT = {'text': 'Proof. strings::split_off_front_matter is modelled exactly (BOM strip, prefix test, the three find alternatives in the code\'s order, '
-         'LF/CRLF/EOF branches, optional blank line) together with the front-matter step of Parser::feed (node literal, line_number advance). Lean '
-         'proves for every text and delimiter: split_sound (front matter ++ rest is the BOM-stripped text; the front matter starts with the '
-         'delimiter and a line end; its closing delimiter is preceded by a line break and followed by a line end, at most one blank line, or the '
-         'end of input), one split_none lemma per look-alike clause (not at the very start, opening or closing delimiter not alone on its line, '
-         'unterminated), split_complete_partial / split_complete_eof_partial (a delimiter line, a body of at least one line none of whose lines '
-         'starts with the delimiter, the delimiter line again, under one line-end convention, is split exactly there, one following blank line '
-         'included), lines_shift (the block parser gets exactly the lines of the rest, numbered after the front matter) and '
+TEXT = {'text': 'Proof. strings::split_off_front_matter is modelled exactly as it is since /repo commit d92265f (BOM strip, prefix test, '
+         'line_ending_len, the line-by-line loop: content up to the first LF/CR, comparison with the delimiter, optional blank line, end of '
+         'input) together with strings::count_line_endings (ef24343) and the front-matter step of Parser::feed (node literal, line_number '
+         'advance). With `lines` the LF/CRLF/CR line splitting of C08 (parseLines_eq_lines: the process_line calls are `lines` up to the NUL '
+         'replacement), Lean proves for every text and every non-empty delimiter: split_recognised_iff (something is taken iff the first line '
+         'of the BOM-stripped text is the delimiter and a later line is the delimiter), split_sound (front matter ++ rest is the BOM-stripped '
+         'text, cut at a line boundary; the front matter starts with the delimiter and a line ending; its lines are the delimiter, lines none '
+         'of which is the delimiter, the delimiter, and then one blank line exactly when the text continues with one), split_complete (on a '
+         'text with lines d :: body ++ d :: tail, d not in body, the lines taken are d :: body ++ [d] plus a leading blank line of tail, and '
+         'the rest has the remaining lines; no hypothesis on line endings, body may be empty, the closing line may end the input), the '
+         'split_none corollaries (first line not the delimiter: not at the very start / opening delimiter not alone; no later line is the '
+         'delimiter: unterminated / closing delimiter not alone), split_lines_invariant and front_matter_any_line_endings (rewriting every '
+         'CRLF/CR/LF as LF changes neither recognition nor the lines of front matter and rest: the C08 clause for this raw-text reader), '
+         'lines_shift with front_matter_line_count (the block parser gets exactly the lines of the rest, numbered after the lines of the '
+         'front matter) and '
          'unrecognised_is_ordinary. Renderer half, on the formatter models (Html.lean, Xml.lean, Cm.lean; tied to the real formatters by C10/C09/C17 '
          'byte-equality correspondence): html_front_matter_absent (the node writes no token and leaves the writer state alone, every context and '
          'option vector), html_front_matter_absent_doc (the tokens of Document[FrontMatter fm, rest...] are those of Document[rest...], no shape '
@@ -49,11 +65,17 @@ TEXT = {'text': 'Proof. strings::split_off_front_matter is modelled exactly (BOM
          'every width and every following siblings the CommonMark output starts with the payload byte for byte: an invariant of the line-assembly '
          'state machine, nothing written later reaches back before the recorded break position) and cm_front_matter_alone. Tie to the code: the real split_off_front_matter (hook) equals the model on every string of <= 8/6/6 symbols '
          'over {delimiter bytes, other, LF, CR, BOM} for three delimiters and on generated documents; the parser\'s FrontMatter literal and tapped '
-         'process_line calls equal the model\'s parseDoc. Search on the real code against an independent line-based reading of the statement: '
-         'recognised exactly, CommonMark = front matter verbatim + rest, HTML/XML = those of the rest alone (sourcepos lines shifted), look-alikes '
-         'render as with the option off. Three genuine incompleteness defects (empty body; body line starting with the delimiter when the closing '
-         'delimiter ends the input; mixed line endings preferring a later CRLF delimiter) are Lean counterexamples and known findings.',
+         'process_line calls (with their line numbers) equal the model\'s parseDoc; the oracle\'s ref_lines equals the model\'s lines. Search on '
+         'the real code against an independent line-based reading of the statement (lines end with LF, CRLF or CR): '
+         'recognised exactly, CommonMark = front matter verbatim + rest, HTML/XML = those of the rest alone (sourcepos lines shifted by the line '
+         'count of the front matter), look-alikes '
+         'render as with the option off. No listed exception is left: the three incompleteness defects (empty body; body line starting with the '
+         'delimiter when the closing delimiter ends the input; mixed line endings preferring a later CRLF delimiter) and the unrecognised CR-only '
+         'spelling were repaired in /repo commit d92265f, the two defects that commit made reachable (line count of front matter lines ended by '
+         'a lone CR; CommonMark writer not at a line start after a final CR) in ef24343 and 65297f7; all six are status=fixed in '
+         'known_findings.json with their replays, and Lean _repaired theorems show the old function next to the new one.',
  'note': 'Trusted: Lean kernel + standard axioms; harness/driver/hooks; the renderers\' treatment of the FrontMatter node is proved on the formatter models and searched on the real code.',
- 'technique': 'Lean 4 theorems about an exact model of the splitter (structure lemma by case analysis over the code\'s branches) + exhaustive/random '
+ 'technique': 'Lean 4 theorems about an exact model of the splitter (every text is a line-end-free content followed by nothing or by a line '
+              'ending and more text; the loop and the line splitter unfold by one line on that shape; induction on the fuel) + exhaustive/random '
               'differential correspondence through cfg(comrak_verif) hooks + with/without-front-matter search on the real parser and formatters',
  'design_ref': 'DESIGN.md section 7, C20'}
